@@ -34,6 +34,8 @@ type Control struct {
 	File     string `json:"file"`
 	Old      string `json:"old"`
 	New      string `json:"new"`
+	Old2     string `json:"old2,omitempty"` // optional second edit of the same file (e.g. an import)
+	New2     string `json:"new2,omitempty"`
 	Expect   string `json:"expect"` // prefix of the obligation key that must turn red
 	Quick    bool   `json:"quick"`
 }
@@ -73,6 +75,13 @@ func Controls(id, repo, verif, tier string, r *core.Report) {
 			continue
 		}
 		mod := strings.Replace(string(src), c.Old, c.New, 1)
+		if c.Old2 != "" {
+			if strings.Count(mod, c.Old2) != 1 {
+				skipped = append(skipped, c.ID+" (second anchor text not found exactly once)")
+				continue
+			}
+			mod = strings.Replace(mod, c.Old2, c.New2, 1)
+		}
 		p, err := core.LoadOverlay(repo, "", map[string][]byte{path: []byte(mod)})
 		if err != nil {
 			skipped = append(skipped, c.ID+" (edited program does not type-check: "+firstLine(err.Error())+")")
